@@ -147,8 +147,31 @@ pub fn canonical_rdata(rtype: u16, rdata: &[u8]) -> Option<Vec<u8>> {
             let p = lower_name_at(rdata, 18, &mut out)?;
             out.extend_from_slice(rdata.get(p..)?);
         }
-        // NSEC next name keeps its case (RFC 6840 5.1); all other types have no names to fold
-        // in the alphabets used by the checks.
+        // SRV: priority, weight, port, target (RFC 4034 6.2 item 3 lists SRV)
+        33 => {
+            out.extend_from_slice(rdata.get(0..6)?);
+            let p = lower_name_at(rdata, 6, &mut out)?;
+            if p != rdata.len() {
+                return None;
+            }
+        }
+        // NAPTR: order, preference, three character-strings, replacement (on the list)
+        35 => {
+            let mut p = 4usize;
+            for _ in 0..3 {
+                let l = *rdata.get(p)? as usize;
+                p += 1 + l;
+            }
+            out.extend_from_slice(rdata.get(0..p)?);
+            let e = lower_name_at(rdata, p, &mut out)?;
+            if e != rdata.len() {
+                return None;
+            }
+        }
+        // NSEC next name keeps its case (RFC 6840 5.1), so do the names of every type that is not
+        // on the list of RFC 4034 6.2 item 3 (SVCB / HTTPS TargetName, ANAME, unknown types:
+        // RFC 3597 7). Types on the list whose layout is not written down here (the obsolete ones,
+        // RP, AFSDB, KX, DNAME ...) are not in the alphabets of the checks that use this module.
         _ => out.extend_from_slice(rdata),
     }
     Some(out)
